@@ -92,6 +92,10 @@ MISSED_FIRST = {  # the property's own check missed it before it was strengthene
     "C17-j": "C17: plane waves on boxes with unequal spacings and cell counts (ratios up to 8), also shorter than two cells of a coarser axis (`plane_waves_anisotropic`)",
     "C18-k": "C18: fields with more than 2**20 cells under 'otsu' against an exact oracle on the histogram of ALL cells; extremes attained once each (hot / cold pixel) at random positions - whether a strided subsample misses them depends on the seed",
     "C20-k": "C20: `append` pairs the member with the time that was given, stated directly on the implementation (explicit time 0 on a non-empty collection); before that the diverging op sequence was reported without a failing input",
+    "C09-k": "C09: solver settings kept by the caller in ONE dict (`least_squares_params`) and handed to every analysis of the run (fits with different numbers of parameters)",
+    "C13-k": "C13: the documented call form with the azimuth omitted (= 0) for PerturbedDroplet3D: distance, curvature and interface_position must equal the explicit form; before that only the broken translation was reported",
+    "C16-k": "C16: grids with more than 2**14 Fourier modes (151 x 149, 27 x 29 x 31) for the invariances of the SMOOTHED spectrum under reflection, translation and axis permutation (`large_grids`)",
+    "C19-l": "C19: the same droplets rendered with a SHARP interface (binary image, two distinct values) through the whole table",
 }
 rows = []
 for d in sorted(ROOT.iterdir()):
